@@ -123,11 +123,15 @@ class Universe:
             o.on_built(self)
         if actuator:
             a = self.actuator
-            if case["quote"] == "USD":
-                a.set_price(self.price_frame)
-            else:
-                # the (frame, quote token) form that UniLpMarket.get_price_from_data() returns
-                a.set_price((self.price_frame, self.tok[case["quote"]]))
+            # prices may be handed over in one piece or in consecutive time chunks (a second set_price call appends rows)
+            cut = len(self.price_frame) // 2 if case.get("price_chunks") and len(self.price_frame) >= 2 else None
+            parts = [self.price_frame] if cut is None else [self.price_frame.iloc[:cut], self.price_frame.iloc[cut:]]
+            for part in parts:
+                if case["quote"] == "USD":
+                    a.set_price(part)
+                else:
+                    # the (frame, quote token) form that UniLpMarket.get_price_from_data() returns
+                    a.set_price((part, self.tok[case["quote"]]))
             a.interval = f"{self.k}min"
             a.strategy = make_script(self)
 
